@@ -163,7 +163,6 @@ macro_rules! float_cases {
             let nonneg = |x: F| {
                 if x.is_nan() { Some("NaN") } else if x.is_infinite() { Some("infinite") } else if x < 0.0 { Some("negative") } else { None }
             };
-            let _ = (tier, seed);
 
             // ---- primitives
             r.add("StandardNormal", N, &[], || Some(Unit(StandardNormal)), fin, cont(|x| phi(x), -INF, INF), true);
@@ -395,6 +394,39 @@ macro_rules! float_cases {
                 r.add("Zeta", N, &[("s", 1.0 + 1e-15)], || Zeta::<F>::new((1.0 + 1e-15) as F).ok(),
                     |x: F| if x.is_nan() { Some("NaN") } else if x < 1.0 { Some("below 1") } else { None }, Law::None, false);
             }
+            // ---- random interior points of E (log-uniform, from VERIF_SEED): explored exactly like grid points
+            {
+                let nr = if tier == Tier::Quick { 2 } else { 8 };
+                let mut sm = crate::rng::SplitMix::seeded(seed.wrapping_mul(0x9E37).wrapping_add(if IS32 { 32 } else { 64 }));
+                let mut lu = |lo: f64, hi: f64| -> f64 { let u = (sm.next() >> 11) as f64 / (1u64 << 53) as f64; let x = (lo.ln() + u * (hi.ln() - lo.ln())).exp(); ((x as F) as f64 * 1e6).round() / 1e6 };
+                for _ in 0..nr {
+                    let (k, th) = (lu(0.3, 1e3), lu(0.1, 10.0));
+                    let (kr, tr) = (R(k), R(th));
+                    r.add("Gamma", N, &[("shape", k), ("scale", th)], move || Gamma::<F>::new(k as F, th as F).ok(), nonneg, cont(move |x| gamma_cdf(x, kr, tr), 0.0, INF), true);
+                    let (a, b) = (lu(0.25, 50.0), lu(0.25, 50.0));
+                    let (ar, br) = (R(a), R(b));
+                    r.add("Beta", N, &[("alpha", a), ("beta", b)], move || Beta::<F>::new(a as F, b as F).ok(), unit, cont(move |x| beta_cdf(x, ar, br), 0.0, 1.0), true);
+                    let nu = lu(2.0, 200.0);
+                    let nr_ = R(nu);
+                    r.add("ChiSquared", N, &[("k", nu)], move || ChiSquared::<F>::new(nu as F).ok(), nonneg, cont(move |x| chi2_cdf(x, nr_), 0.0, INF), true);
+                    let (mu, l) = (lu(0.1, 20.0), lu(0.1, 10.0));
+                    let (mr, lr) = (R(mu), R(l));
+                    r.add("InverseGaussian", N, &[("mean", mu), ("shape", l)], move || InverseGaussian::<F>::new(mu as F, l as F).ok(), nonneg, cont(move |x| inv_gauss_cdf(x, mr, lr), 0.0, INF), true);
+                    let (sc, sh) = (lu(0.1, 10.0), lu(0.3, 8.0));
+                    let (scr, shr) = (R(sc), R(sh));
+                    let cw = r.add("Weibull", N, &[("scale", sc), ("shape", sh)], move || Weibull::<F>::new(sc as F, sh as F).ok(), nonneg, cont(move |x| weibull_cdf(x, scr, shr), 0.0, INF), true);
+                    cw.pdf = Some(Arc::new(move |x: f64| if x <= 0.0 { 0.0 } else { shr / scr * (x / scr).powf(shr - 1.0) * (-(x / scr).powf(shr)).exp() }));
+                    let lam = lu(12.0, 1e5);
+                    let lr2 = R(lam);
+                    let chkp = |x: F| if x.is_nan() { Some("NaN") } else if x < 0.0 { Some("negative") } else if x.is_infinite() { Some("infinite") } else if x.fract() != 0.0 { Some("not an integer") } else { None };
+                    let pref = Arc::new(std::sync::OnceLock::<DiscRef>::new());
+                    r.add("Poisson", N, &[("lambda", lam)], move || Poisson::<F>::new(lam as F).ok(), chkp, disc(move |k| pref.get_or_init(|| poisson_ref(lr2)).cdf(k), 0.0, INF), true);
+                    let (zn, zs) = (lu(2.0, 1e5).round(), lu(0.2, 4.0));
+                    let (znr, zsr) = (R(zn), R(zs));
+                    let chkz = move |x: F| { let x = x as f64; if x.is_nan() { Some("NaN") } else if x < 1.0 { Some("below 1") } else if x > znr { Some("above n") } else if x.fract() != 0.0 { Some("not an integer") } else { None } };
+                    r.add("Zipf", N, &[("n", zn), ("s", zs)], move || Zipf::<F>::new(zn as F, zs as F).ok(), chkz, disc(move |k| zipf_cdf(k, znr, zsr), 1.0, znr), true);
+                }
+            }
             // ---- extremes of the accepted parameter ranges (termination / word consumption only: the support is not judged,
             //      overflow and underflow of the result are expected here)
             {
@@ -554,6 +586,36 @@ pub fn cases_int(r: &mut Reg, tier: Tier, _seed: u64) {
         let c = r.add("Binomial", "u64", &[("n", nf), ("p", p)], move || Binomial::new(n, p).ok(), chk, disc(move |k| bref.get_or_init(|| binomial_ref(nf, p)).cdf(k), 0.0, nf), inlaw);
         let pp = p.min(1.0 - p);
         if pp > 0.0 && 1.0 - pp == 1.0 && nf * pp < 10.0 { c.law_note = "Poisson-limit branch (Knuth product method): law not decided"; }
+    }
+    // ---- random interior points (from VERIF_SEED)
+    {
+        let nr = if tier == Tier::Quick { 3 } else { 12 };
+        let mut sm = crate::rng::SplitMix::seeded(_seed.wrapping_mul(0x51D).wrapping_add(7));
+        let mut u01 = || (sm.next() >> 11) as f64 / (1u64 << 53) as f64;
+        for _ in 0..nr {
+            let n = (2f64.powf(u01() * 40.0)).round() as u64 + 1;
+            let p = ((1e-12f64.ln() + u01() * (0.5f64.ln() - 1e-12f64.ln())).exp() * 1e15).round() / 1e15;
+            let p = if u01() < 0.5 { p } else { 1.0 - p };
+            let nf = n as f64;
+            let chk = move |x: u64| if x > n { Some("above n") } else { None };
+            let bref = Arc::new(std::sync::OnceLock::<DiscRef>::new());
+            let c = r.add("Binomial", "u64", &[("n", nf), ("p", p)], move || Binomial::new(n, p).ok(), chk, disc(move |k| bref.get_or_init(|| binomial_ref(nf, p)).cdf(k), 0.0, nf), true);
+            let pp = p.min(1.0 - p);
+            if pp > 0.0 && 1.0 - pp == 1.0 && nf * pp < 10.0 { c.law_note = "Poisson-limit branch (Knuth product method): law not decided"; }
+            let gp = (2f64.powf(-53.0 * u01()) * 1e18).round() / 1e18;
+            if gp > 0.0 && gp <= 1.0 {
+                r.add("Geometric", "u64", &[("p", gp)], move || Geometric::new(gp).ok(), |_x: u64| None, disc(move |k| geometric_cdf(k, gp), 0.0, INF), true);
+            }
+            let nn = (2f64.powf(3.0 + u01() * 17.0)).round() as u64;
+            let kk = ((nn as f64) * u01()).round() as u64;
+            let ns = ((nn as f64) * u01()).round() as u64;
+            let lo = (ns as u128 + kk as u128).saturating_sub(nn as u128) as u64;
+            let hi = ns.min(kk);
+            let chkh = move |x: u64| if x < lo || x > hi { Some("outside [max(0,n+K-N), min(n,K)]") } else { None };
+            let (nf2, kf, sf) = (nn as f64, kk as f64, ns as f64);
+            let href = Arc::new(std::sync::OnceLock::<DiscRef>::new());
+            r.add("Hypergeometric", "u64", &[("N", nf2), ("K", kf), ("n", sf)], move || Hypergeometric::new(nn, kk, ns).ok(), chkh, disc(move |x| href.get_or_init(|| hypergeom_ref(nf2, kf, sf)).cdf(x), lo as f64, hi as f64), true);
+        }
     }
     // ---- Geometric
     for &p in &[1.0, 0.9, 2.0 / 3.0, 0.66, 0.5, 0.3, 0.1, 0.01, 1e-3, 1e-6, 2e-10, 1e-12, 2f64.powi(-53)] {
